@@ -312,12 +312,14 @@ Proof. induction hs as [|h r IH]; intros k s; cbn [apply_rest]; pose proof apply
 
 Lemma apply_first_fueled o p lines s hs : fueled (apply_first o p lines s hs).
 Proof.
+  assert (W : forall q m, fueled m -> fueled (with_patch q m)).
+  { intros q m Hm. unfold with_patch. apply fueled_bind; [exact Hm|intros; apply fueled_ok]. }
   unfold apply_first. pose proof apply_one_fueled. pose proof apply_rest_fueled.
   destruct hs as [|h r]; [apply fueled_ok|].
-  destruct (should_check_if_patch_is_reversed _ o); [|rf].
+  destruct (should_check_if_patch_is_reversed _ o); [|apply W; rf].
   apply fueled_bind.
   - destruct (_ || _); [|apply fueled_ok]. unfold handle_probably_reversed_patch, check_how_to_handle_reversed_patch. rf.
-  - intros d _. destruct (snd d); rf.
+  - intros d _. destruct (snd d); apply W; rf.
 Qed.
 
 Lemma apply_patch_fueled o lines p : fueled (apply_patch o lines p).
